@@ -137,4 +137,105 @@ theorem branch_order_refines (bt_ids bt_pids : List Int) (r : Rose) (hR : Repres
     cases r.depthOf k 0 <;> simp
     rcases Nat.lt_or_ge k bt_ids.length with h | h <;> simp [h]
 
+/-! ### `FurcationFeatures.nodes` / `TipFeatures.nodes` and the subset features -/
+
+theorem furcation_loop (ids pids : List Int) (g : Int → Bool) :
+    ∀ (xs : List Int) (v : nf_furcation_nodes.V), v.ids = ids → v.pids = pids → (∀ x ∈ xs, node_is_furcation ids pids x = some (g x)) →
+    ∃ n', Py.forEach nf_furcation_nodes.for1 xs v = .next { v with n := n', c0_ := v.c0_ ++ xs.map g } := by
+  intro xs
+  induction xs with
+  | nil => intro v _ _ _; exact ⟨v.n, by simp [Py.forEach]⟩
+  | cons x xs ih =>
+    intro v h1 h2 h
+    subst h1 h2
+    have hx := h x List.mem_cons_self
+    obtain ⟨n', hs⟩ := ih { v with n := x, c0_ := v.c0_ ++ [g x] } rfl rfl (fun s hs => h s (List.mem_cons_of_mem _ hs))
+    refine ⟨n', ?_⟩
+    simp only [Py.forEach, nf_furcation_nodes.for1, Py.bind, hx]
+    rw [hs]; simp
+
+theorem tip_loop (ids pids : List Int) (g : Int → Bool) :
+    ∀ (xs : List Int) (v : nf_tip_nodes.V), v.ids = ids → v.pids = pids → (∀ x ∈ xs, node_is_tip ids pids x = some (g x)) →
+    ∃ n', Py.forEach nf_tip_nodes.for1 xs v = .next { v with n := n', c0_ := v.c0_ ++ xs.map g } := by
+  intro xs
+  induction xs with
+  | nil => intro v _ _ _; exact ⟨v.n, by simp [Py.forEach]⟩
+  | cons x xs ih =>
+    intro v h1 h2 h
+    subst h1 h2
+    have hx := h x List.mem_cons_self
+    obtain ⟨n', hs⟩ := ih { v with n := x, c0_ := v.c0_ ++ [g x] } rfl rfl (fun s hs => h s (List.mem_cons_of_mem _ hs))
+    refine ⟨n', ?_⟩
+    simp only [Py.forEach, nf_tip_nodes.for1, Py.bind, hx]
+    rw [hs]; simp
+
+/-- number of children of row `k` in the table (ids = positions) -/
+def nKids (n : Nat) (pids : List Int) (k : Nat) : Nat := (tableKids (Sub.rangeI n) pids (k : Int)).length
+
+theorem range_len_rangeI (n : Nat) : Py.range (Py.len (Sub.rangeI n)) = (List.range n).map (fun (k : Nat) => (k : Int)) := by
+  simp [Sub.rangeI]
+
+/-- **`FurcationFeatures.nodes` as translated**: the mask, in row order, of the rows with two or more children -/
+theorem furcation_nodes_refines (n : Nat) (pids : List Int) (hl : pids.length ≤ n) :
+    nf_furcation_nodes (Sub.rangeI n) pids = some ((List.range n).map fun k => decide (2 ≤ nKids n pids k)) := by
+  obtain ⟨n', hs⟩ := furcation_loop (Sub.rangeI n) pids (fun k => decide (2 ≤ (tableKids (Sub.rangeI n) pids k).length))
+    ((List.range n).map (fun (k : Nat) => (k : Int)))
+    { (default : nf_furcation_nodes.V) with ids := Sub.rangeI n, pids := pids, c0_ := [] } rfl rfl (by
+      intro x hx
+      simp only [List.mem_map, List.mem_range] at hx
+      obtain ⟨k, hk, rfl⟩ := hx
+      exact RefineNode.node_is_furcation_spec n pids hl k (by omega) (by omega))
+  simp only [nf_furcation_nodes, nf_furcation_nodes.body, Py.seq, Py.bindS, range_len_rangeI]
+  rw [hs]
+  simp [Py.finish, List.map_map, Function.comp_def, nKids]
+  try (intro a _; congr)
+
+/-- **`TipFeatures.nodes` as translated**: the mask, in row order, of the rows without children -/
+theorem tip_nodes_refines (n : Nat) (pids : List Int) (hl : pids.length ≤ n) :
+    nf_tip_nodes (Sub.rangeI n) pids = some ((List.range n).map fun k => decide (nKids n pids k = 0)) := by
+  obtain ⟨n', hs⟩ := tip_loop (Sub.rangeI n) pids (fun k => decide ((tableKids (Sub.rangeI n) pids k).length = 0))
+    ((List.range n).map (fun (k : Nat) => (k : Int)))
+    { (default : nf_tip_nodes.V) with ids := Sub.rangeI n, pids := pids, c0_ := [] } rfl rfl (by
+      intro x hx
+      simp only [List.mem_map, List.mem_range] at hx
+      obtain ⟨k, hk, rfl⟩ := hx
+      exact RefineNode.node_is_tip_spec n pids hl k (by omega) (by omega))
+  simp only [nf_tip_nodes, nf_tip_nodes.body, Py.seq, Py.bindS, range_len_rangeI]
+  rw [hs]
+  simp [Py.finish, List.map_map, Function.comp_def, nKids]
+
+variable {K : Type} [Inhabited K] [Add K] [Sub K] [Mul K] [OfNat K 0] [OfNat K 1] [LT K] [DecidableLT K] [LE K] [DecidableLE K]
+
+/-- **`_SubsetNodesFeatures.get_count` as translated**: on the mask of the rows satisfying `p`, the one-element array holding the number of
+rows that satisfy `p` -/
+theorem subset_count_refines (F : Py.Fld K) (n : Nat) (p : Nat → Bool) :
+    nf_subset_count F ((List.range n).map p) = some [F.ofInt ((((List.range n).filter p).length : Nat) : Int)] := by
+  have : (List.filter id (List.map p (List.range n))).length = ((List.range n).filter p).length := by
+    rw [← List.countP_eq_length_filter, ← List.countP_eq_length_filter, List.countP_map]; rfl
+  simp [nf_subset_count, nf_subset_count.body, Py.finish, Py.countNonzero, this]
+
+theorem select_map {α β : Type} (f : β → α) (g : β → Bool) : ∀ l : List β, Py.select (l.map f) (l.map g) = (l.filter g).map f := by
+  intro l
+  induction l with
+  | nil => simp [Py.select]
+  | cons x xs ih =>
+    simp only [Py.select] at ih
+    cases h : g x <;> simp [Py.select, List.filter_cons, h, ih]
+
+/-- **`_SubsetNodesFeatures.get_radial_distance` as translated**: on the mask of the rows satisfying `p` and a tree whose first row is typed
+as soma, the norm of `xyz[k] − xyz[0]` for exactly the rows `k` that satisfy `p`, in row order -/
+theorem subset_radial_refines (norm : List K → K) (ids pids types : List Int) (axyz : List (List K)) (h0 : 0 < axyz.length)
+    (hd : ∀ r ∈ axyz, r.length = (RefineNf.row axyz 0).length) (ht : types.head? = some Gen.Consts.type_soma) (p : Nat → Bool) :
+    nf_subset_radial_distance norm ids pids types axyz ((List.range axyz.length).map p)
+      = some (((List.range axyz.length).filter p).map fun (k : Nat) => norm (RefineNf.vec axyz 0 (k : Int))) := by
+  have hr := (RefineNf.radial_refines norm ids pids types axyz h0 hd).1 ht
+  have hax : axyz.map (fun r => norm (List.zipWith (fun x y => x - y) r (RefineNf.row axyz 0)))
+      = (List.range axyz.length).map (fun (k : Nat) => norm (RefineNf.vec axyz 0 (k : Int))) := by
+    apply List.ext_getElem (by simp)
+    intro i h1 h2
+    simp only [List.length_map] at h1
+    simp [RefineNf.vec, RefineNf.row, List.getD_eq_getElem?_getD, h1]
+  simp only [nf_subset_radial_distance, nf_subset_radial_distance.body, Py.bind, hr, Py.finish, Option.map]
+  rw [hax, select_map]
+
 end RefineNf2
